@@ -1,7 +1,7 @@
 (* C31 - Serialised and pickled objects reflect current state and round-trip: the composite-key encoding.
    Property theorems only.  reduce_composite_pk / encode_part are re-translated from /repo's Bag._reduce_composite_pk on every run
    (Gen/C31Reduce.v); key parts are modelled by their str() images, lists of arbitrary code points (',', '*', '\' included). *)
-Require Import PonyV.Base.PyBase PonyV.Model.C31Codec PonyV.Gen.C31Reduce PonyV.Proofs.C31Codec PonyV.Model.C31Bag PonyV.Proofs.C31Bag.
+Require Import PonyV.Base.PyBase PonyV.Model.C31Codec PonyV.Gen.C31Reduce PonyV.Proofs.C31Codec PonyV.Model.C31Bag PonyV.Proofs.C31Bag PonyV.Model.C31Flush PonyV.Proofs.C31Flush.
 
 (* an explicit decoder reads every encoded key back *)
 Theorem C31_pk_decode : forall pk : list (list Z), pk <> [] -> decode (reduce_composite_pk pk) = pk.
@@ -31,6 +31,20 @@ Print Assumptions C31_bag_given_full_except_known.
 Theorem C31_bag_keys : forall (K : Type) (pks : list K), NoDup pks -> NoDup (bag_keys pks) /\ ~ In None (bag_keys pks).
 Proof. exact @bag_keys_nodup. Qed.
 Print Assumptions C31_bag_keys.
+
+(* Entity.to_dict(with_collections=True) reports the key of every member of a collection -- also of members created in this
+   session that are not saved yet (automatic keys): to_dict saves the whole session first (to_dict_flushes_session, scanned from /repo) *)
+Theorem C31_to_dict_reports_pending_keys : forall (K : Type) (assign : nat -> K) (pk : nat -> option K) (scope : nat -> bool) (members : list nat),
+  reported_members assign pk scope members = map (fun o => Some (final_key assign pk o)) members /\
+  ~ In None (reported_members assign pk scope members).
+Proof. exact @reported_members_both. Qed.
+Print Assumptions C31_to_dict_reports_pending_keys.
+
+(* the same for the dictionary keys of Bag.to_dict (bag_to_dict_flushes_session) *)
+Theorem C31_bag_result_keys : forall (K : Type) (assign : nat -> K) (pk : nat -> option K) (objs : list nat),
+  bag_result_keys assign pk objs = map (fun o => Some (final_key assign pk o)) objs /\ ~ In None (bag_result_keys assign pk objs).
+Proof. exact @bag_result_keys_final. Qed.
+Print Assumptions C31_bag_result_keys.
 
 (* non-vacuity: ('a*', ',c') and ('a', '*,c') -- equal after naive joining -- get different keys, and decode back *)
 Example C31_nonvacuous :
